@@ -19,6 +19,20 @@ func kfOf(ind *Ind, cfg []int, n, o, k int) string {
 	return ind.KF(cfg, n, o, k)
 }
 
+func kf15(ind *Ind, cfg []int, n, o, k int) string {
+	if ind.KF15 == nil {
+		return ""
+	}
+	return ind.KF15(cfg, n, o, k)
+}
+
+func kf18(ind *Ind, cfg []int, n, o, k int) string {
+	if ind.KF18 == nil {
+		return ""
+	}
+	return ind.KF18(cfg, n, o, k)
+}
+
 func kfLen(ind *Ind, cfg []int, n int) string {
 	if ind.KFLen == nil {
 		return ""
@@ -167,7 +181,7 @@ func H_C15(name string, c1, c2, c3, dn int) {
 	for o := range outs {
 		for k := range outs[o] {
 			v := outs[o][k]
-			id := kfOf(ind, cfg, n, o, k)
+			id := kf15(ind, cfg, n, o, k)
 			if ind.HasRange != nil && ind.HasRange[o] {
 				if id != "" {
 					vrt.KnownFindingAt(id, vrt.Name("range", o), k, v >= ind.Lo[o] && v <= ind.Hi[o])
@@ -187,7 +201,7 @@ func H_C15(name string, c1, c2, c3, dn int) {
 	if ind.Ordered {
 		for k := range outs[0] {
 			if k < len(outs[1]) && k < len(outs[2]) {
-				id := kfOf(ind, cfg, n, 0, k)
+				id := kf15(ind, cfg, n, 0, k)
 				ok := outs[0][k] >= outs[1][k] && outs[1][k] >= outs[2][k]
 				if id != "" {
 					vrt.KnownFindingAt(id, "ordered", k, ok)
@@ -254,7 +268,7 @@ func H_C18(name string, c1, c2, c3, dn, which int) {
 		f := ipow(lp, ind.Deg[o][0]) * ipow(lv, ind.Deg[o][1])
 		for k := range a[o] {
 			if k < len(b[o]) {
-				if id := kfOf(ind, cfg, n, o, k); id != "" {
+				if id := kf18(ind, cfg, n, o, k); id != "" {
 					vrt.KnownFindingEqAt(id, vrt.Name("scale", o), k, b[o][k], a[o][k]*f)
 				} else {
 					vrt.AssertEqAt(vrt.Name("scale", o), k, b[o][k], a[o][k]*f)
